@@ -101,33 +101,56 @@ Section Balanced.
     apply normalise_hi_spec; lia.
   Qed.
 
-  (* floating element types; prec = 53 (double) / 24 (float) *)
+  Lemma cast_u64_id z : 0 <= z < 2 ^ 64 -> cast u64 z = z.
+  Proof. intros; apply cast_id; unfold wf, tmin, tmax; cbn; lia. Qed.
+  Definition fits64 (sgn : bool) (y : Z) : Prop := if sgn then - 2 ^ 63 <= y < 2 ^ 63 else 0 <= y < 2 ^ 64.
+  Lemma bf_generic_correct sgn y : fits64 sgn y -> exists r, bf_generic p sgn y = Some r /\ balanced p y r.
+  Proof.
+    unfold bf_generic, fits64. destruct sgn; intros H; eexists; (split; [reflexivity|]).
+    - rewrite (cast_i64_id y) by lia. apply bal_rem.
+    - rewrite cast_u64_id by lia. apply bal_rem_hi; lia.
+  Qed.
+  (* floating element types; prec = 53 (double) / 24 (float).  Native sources: every value of a type of at most 64 bits *)
   Definition bf_src_ok (prec : Z) (s : src) (y : Z) : Prop :=
     match s with
     | SInteger | SF _ => True
-    | SI T => in_range T y /\ (sg T = false -> 0 <= y) /\
-              ((if prec =? 53 then bits T =? 64 else 32 <=? bits T) = false -> in_range i64 y)
-    | SLL _ => in_range i64 y
+    | SI T => (sg T = false -> 0 <= y) /\ fits64 (sg T) y
+    | SLL sgn => fits64 sgn y
     | _ => False
     end.
   Theorem bf_init_correct prec s y : bf_src_ok prec s y -> exists r, bf_init p prec s y = Some r /\ balanced p y r.
   Proof.
     destruct s as [T|sprec| |K|sgn]; cbn [bf_src_ok bf_init]; intros H; try contradiction;
       try (eexists; split; [reflexivity|]; apply bal_rem).
-    - destruct H as (Ha & Hu & Hg).
+    - destruct H as (Hu & Hg).
       destruct (prec =? 53); [destruct (bits T =? 64) | destruct (32 <=? bits T)];
-        try (destruct (sg T) eqn:HsT; eexists; (split; [reflexivity|]); [apply bal_rem | apply bal_rem_hi; auto]);
-        (eexists; split; [reflexivity|]; rewrite (cast_id i64) by (try apply Hg; try reflexivity; unfold wf; cbn; lia); apply bal_rem).
-    - eexists; split; [reflexivity|]. rewrite (cast_id i64) by (try apply H; unfold wf; cbn; lia). apply bal_rem.
+        try (apply bf_generic_correct; exact Hg);
+        (destruct (sg T) eqn:HsT; eexists; (split; [reflexivity|]); [apply bal_rem | apply bal_rem_hi; auto]).
+    - apply bf_generic_correct; exact H.
   Qed.
 
   (* integral element types int32_t / int64_t *)
+  Lemma bi_generic_correct b sgn y :
+    0 < b -> p <= tmax (Ity b true) -> fits64 sgn y -> (b =? 32 = false -> sgn = true -> in_range (Ity b true) y) ->
+    exists r, bi_generic p b sgn y = Some r /\ balanced p y r.
+  Proof.
+    intros Hb Hpb H64 HE. assert (wf (Ity b true)) as WE by (unfold wf; cbn; lia).
+    assert (tmin (Ity b true) = - tmax (Ity b true) - 1) as HT by (unfold tmin, tmax; cbn; lia).
+    unfold bi_generic, fits64 in *. destruct (b =? 32) eqn:E32; destruct sgn; eexists; (split; [reflexivity|]).
+    - rewrite (cast_i64_id y) by lia. pose proof (rem_bound y p ltac:(lia)) as [Hrb _].
+      rewrite (cast_id _ (Z.rem y p)) by (auto; lia). apply bal_rem.
+    - rewrite cast_u64_id by lia. pose proof (rem_bound y p ltac:(lia)) as [Hrb _].
+      rewrite (cast_id _ (Z.rem y p)) by (auto; lia). apply bal_rem_hi; lia.
+    - rewrite cast_id by (auto; apply HE; auto). apply bal_rem.
+    - rewrite cast_u64_id by lia. pose proof (rem_bound y p ltac:(lia)) as [Hrb [Hrp _]].
+      rewrite (cast_id _ (Z.rem y p)) by (auto; lia).
+      eapply balanced_cong; [apply rem_cong; lia|]. apply bal_rem.
+  Qed.
   Definition bi_src_ok (b : Z) (s : src) (y : Z) : Prop :=
-    let E := Ity b true in
     match s with
     | SInteger | SF _ => True
-    | SI T => (sg T = false -> 0 <= y) /\ ((b =? 32) && (bits T =? 64) = false -> if b =? 32 then in_range i64 y else in_range E y)
-    | SLL _ => if b =? 32 then in_range i64 y else in_range E y
+    | SI T => (sg T = false -> 0 <= y) /\ fits64 (sg T) y /\ (b =? 32 = false -> sg T = true -> in_range (Ity b true) y)
+    | SLL sgn => fits64 sgn y /\ (b =? 32 = false -> sgn = true -> in_range (Ity b true) y)
     | _ => False
     end.
   Theorem bi_init_correct b s y :
@@ -137,19 +160,13 @@ Section Balanced.
     assert (tmin (Ity b true) = - tmax (Ity b true) - 1) as HE by (unfold tmin, tmax; cbn; lia).
     pose proof (rem_bound y p ltac:(lia)) as [Hrb _].
     destruct s as [T|sprec| |K|sgn]; cbn [bi_src_ok bi_init]; intros H; try contradiction.
-    - destruct H as (Hu & Hg). destruct ((b =? 32) && (bits T =? 64)).
+    - destruct H as (Hu & H64 & Hg). destruct ((b =? 32) && (bits T =? 64)).
       + rewrite (cast_id _ (Z.rem y p)) by (auto; lia).
         destruct (sg T) eqn:HsT; eexists; (split; [reflexivity|]); [apply bal_rem | apply bal_rem_hi; auto].
-      + specialize (Hg eq_refl). destruct (b =? 32).
-        * eexists; split; [reflexivity|]. rewrite (cast_id i64) by (try apply Hg; unfold wf; cbn; lia).
-          pose proof (rem_bound y p ltac:(lia)) as [Hrb' _]. rewrite (cast_id _ (Z.rem y p)) by (auto; lia). apply bal_rem.
-        * eexists; split; [reflexivity|]. rewrite cast_id by (auto; apply Hg). apply bal_rem.
+      + apply bi_generic_correct; auto.
     - rewrite f2i_some by lia. eexists; split; [reflexivity|]. apply bal_rem.
     - eexists; split; [reflexivity|]. apply bal_rem.
-    - destruct (b =? 32).
-      + eexists; split; [reflexivity|]. rewrite (cast_id i64) by (try apply H; unfold wf; cbn; lia).
-        rewrite (cast_id _ (Z.rem y p)) by (auto; lia). apply bal_rem.
-      + eexists; split; [reflexivity|]. rewrite cast_id by (auto; apply H). apply bal_rem.
+    - destruct H. apply bi_generic_correct; auto.
   Qed.
   (* zero, one, mOne = 0, 1, -1 are balanced representatives of themselves *)
   Theorem bal_constants : balanced p 0 0 /\ balanced p 1 1 /\ balanced p (-1) (-1).
@@ -197,23 +214,18 @@ Section Ruint.
     - eapply residue_cong; [| apply ru_negin_spec; exact HR]. f_equal; lia.
     - eapply residue_cong; [| exact HR]. f_equal; lia.
   Qed.
+  (* native integer sources (repaired body): every value of a type of at most 64 bits except INT64_MIN *)
   Theorem ru_init_int_correct T a :
-    wf T -> bits T <= 64 -> tmin T < a <= tmax T -> exists r, ru_init K p (SI T) a = Some r /\ residue p a r.
+    in_range T a -> - 2 ^ 63 < a < 2 ^ 64 -> (sg T = true -> a < 2 ^ 63) -> exists r, ru_init K p (SI T) a = Some r /\ residue p a r.
   Proof.
-    intros WT Hb Ha. cbn [ru_init]. eexists; split; [reflexivity|]. rewrite cabs_abs by auto.
-    assert (Z.abs a < 2 ^ 64).
-    { pose proof (pow2_le (bits T) 64 ltac:(unfold wf in WT; lia)). pose proof (pow2_S (bits T) WT).
-      pose proof (pow2_pos (bits T - 1) ltac:(unfold wf in WT; lia)). unfold tmin, tmax in Ha. destruct (sg T); lia. }
+    intros Ha Hb Hs. cbn [ru_init]. eexists; split; [reflexivity|].
+    assert (wabs (sg T) a = Z.abs a) as ->.
+    { destruct (sg T) eqn:E.
+      - apply wabs_abs; [discriminate | specialize (Hs eq_refl); lia].
+      - unfold wabs. unfold in_range, tmin in Ha. rewrite E in Ha. lia. }
     rewrite wrapu_id by lia. pose proof pow_K. apply ru_fin; auto; lia.
   Qed.
 End Ruint.
-(* int32_t source: -a overflows in int for INT32_MIN and the sign-extended word is reduced (known finding) *)
-Theorem ru_init_int32_min_refuted : exists p a r, 2 <= p /\ in_range i32 a /\ ru_init 7 p (SI i32) a = Some r /\ ~ residue p a r.
-Proof.
-  exists 7, (- 2 ^ 31), 0. split; [lia|]. split; [unfold in_range; cbn; lia|]. split; [reflexivity|].
-  unfold residue; intros [_ H]; vm_compute in H; discriminate H.
-Qed.
-
 (* ------------------------------------------------------------------ table rings: the index that is looked up is x mod q *)
 Section Tables.
   Variable q : Z.
@@ -302,6 +314,82 @@ Proof.
   - replace ((0 <=? r0) && (r0 <? p)) with true by (symmetry; apply andb_true_iff; split; [apply Z.leb_le|apply Z.ltb_lt]; lia).
     f_equal. rewrite Hr0. f_equal. lia.
 Qed.
+
+(* Modular<Log16>::init(double|float) (repaired body): init((int64_t)fmod(i, p)) — EVERY integer-valued floating source *)
+Theorem lg_init_float_correct p prec a : 2 <= p < 2 ^ 15 -> lg_init p (SF prec) a = Some (a mod p).
+Proof.
+  intros Hp. cbn [lg_init]. pose proof (rem_bound a p ltac:(lia)) as [Hb _]. change (2 ^ 15) with 32768 in Hp.
+  rewrite lg_init_i64_correct; [| change (2 ^ 15) with 32768; lia | unfold in_range; cbn; change (2 ^ (64 - 1)) with 9223372036854775808; lia].
+  f_equal. apply rem_cong; lia.
+Qed.
+
+(* GFqDom::init(double|float) (repaired body): every integer-valued floating source when q <= 2^31 (int32_t tables) *)
+Theorem gf_init_float_correct q prec x : 2 <= q <= 2 ^ 31 -> gf_init 32 q (SF prec) x = Some (x mod q).
+Proof.
+  intros Hq. cbn [gf_init]. change (2 ^ 31) with 2147483648 in Hq.
+  change (rnd 53 (tmax (UTT 32))) with 4294967295.
+  assert (forall i, 0 <= i < q -> gf_idx q i = Some i) as Hidx.
+  { intros; unfold gf_idx. replace ((0 <=? i) && (i <? q)) with true; auto. symmetry; apply andb_true_iff; split; [apply Z.leb_le|apply Z.ltb_lt]; lia. }
+  set (tr := Z.abs x).
+  assert (exists t, (if 4294967295 <=? tr then Some (Z.rem tr q)
+                     else if q <=? tr then obind (f2i (UTT 32) tr) (fun u => Some (u mod q)) else Some tr) = Some t
+                    /\ 0 <= t < q /\ t mod q = tr mod q) as (t0 & -> & Ht & Hc).
+  { destruct (Z.leb_spec 4294967295 tr).
+    - exists (Z.rem tr q). split; auto. pose proof (rem_bound tr q ltac:(lia)) as [? [? ?]]. split; [unfold tr in *; lia|]. apply rem_cong; lia.
+    - destruct (Z.leb_spec q tr).
+      + rewrite f2i_some by (unfold tmin, tmax, UTT; cbn; unfold tr in *; lia). cbn [obind]. exists (tr mod q). split; auto.
+        split; [apply Z.mod_pos_bound; lia | apply Z.mod_mod; lia].
+      + exists tr. split; auto. split; [unfold tr in *; lia | reflexivity]. }
+  cbn [obind]. destruct (Z.ltb_spec x 0).
+  - destruct (Z.eqb_spec t0 0) as [->|E].
+    + f_equal. symmetry. rewrite Z.mod_0_l in Hc by lia. symmetry in Hc. apply Z.mod_divide in Hc; [|lia]. destruct Hc as [k Hk].
+      apply Z.mod_divide; [lia|]. exists (- k). unfold tr in Hk. lia.
+    + rewrite Hidx by lia. f_equal. symmetry. rewrite <- (Z.mod_small (q - t0) q) by lia.
+      assert (t0 = tr mod q) as Ht0 by (rewrite <- Hc; symmetry; apply Z.mod_small; lia).
+      apply (cong_intro q _ _ (- (1 + tr / q))); [lia|]. pose proof (Z.div_mod tr q ltac:(lia)). unfold tr in *. lia.
+  - rewrite Hidx by lia. f_equal. rewrite <- (Z.mod_small t0 q) by lia. rewrite Hc. unfold tr. f_equal. lia.
+Qed.
+
+(* ------------------------------------------------------------------ ModularExtended<float|double> (repaired bodies): the
+   specialisations that are now selected: Integer, floating sources, and the native sources that have one *)
+Section Extended.
+  Variables prec p : Z.
+  Hypothesis Hp : 2 <= p.
+  Lemma ex_negin_spec x y : residue p y x -> residue p (- y) (ex_negin p x).
+  Proof.
+    intros [Hx Hc]. unfold ex_negin. destruct (Z.ltb_spec (- x) 0).
+    - split; [lia|]. assert (x = y mod p) as Hx' by (rewrite <- Hc; symmetry; apply Z.mod_small; lia).
+      apply (cong_intro p _ _ (1 + y / p)); [lia|]. pose proof (Z.div_mod y p ltac:(lia)). lia.
+    - assert (x = 0) as -> by lia. change (- 0) with 0. split; [lia|].
+      assert (y mod p = 0) as Hy by (rewrite <- Hc; apply Z.mod_0_l; lia).
+      apply Z.mod_divide in Hy; [|lia]. destruct Hy as [k ->]. rewrite Z.mod_0_l by lia. symmetry.
+      apply Z.mod_divide; [lia|]. exists (- k); lia.
+  Qed.
+  Definition ex_src_ok (s : src) (a : Z) : Prop :=
+    match s with
+    | SInteger | SF _ => True
+    | SI T => (if prec =? 24 then 32 <=? bits T else bits T =? 64) = true /\ (sg T = false -> 0 <= a)
+    | _ => False
+    end.
+  Theorem ex_init_specialised_correct s a : ex_src_ok s a -> exists r, ex_init prec p s a = Some r /\ residue p a r.
+  Proof.
+    pose proof (rem_bound a p ltac:(lia)) as [Hb [Hpos Hneg]]. pose proof (rem_cong a p ltac:(lia)) as Hc.
+    assert (residue p a (if Z.rem a p <? 0 then Z.rem a p + p else Z.rem a p)) as HR.
+    { destruct (Z.ltb_spec (Z.rem a p) 0); (split; [lia|]); [rewrite <- Hc; apply (cong_intro p _ _ 1); lia | auto]. }
+    destruct s as [T|sprec| |K|sgn]; cbn [ex_src_ok ex_init]; intros H; try contradiction;
+      try (eexists; split; [reflexivity|]; exact HR).
+    destruct H as [-> Hu]. destruct (sg T) eqn:HsT; eexists; (split; [reflexivity|]).
+    - assert (residue p (Z.abs a) (Z.abs (Z.rem a p))) as HA.
+      { split; [lia|]. destruct (Z.ltb_spec a 0).
+        - replace (Z.abs (Z.rem a p)) with (Z.rem (- a) p) by (rewrite Z.rem_opp_l'; lia).
+          replace (Z.abs a) with (- a) by lia. apply rem_cong; lia.
+        - replace (Z.abs (Z.rem a p)) with (Z.rem a p) by lia. replace (Z.abs a) with a by lia. auto. }
+      destruct (Z.ltb_spec a 0).
+      + eapply residue_cong; [| apply ex_negin_spec; exact HA]. f_equal; lia.
+      + eapply residue_cong; [| exact HA]. f_equal; lia.
+    - apply residue_mod; lia.
+  Qed.
+End Extended.
 
 (* ------------------------------------------------------------------ Montgomery<int32_t>, relative to the REDC specification
    (C07 proves REDC for its model of the same functions; here it is a hypothesis, so the statement is labelled partial) *)
